@@ -290,9 +290,8 @@ class UnionMarshaller(AbstractMarshaller[UnionT], tp.Generic[UnionT]):
             return val
 
         for routine in self.ordered_routines:
-            with contextlib.suppress(
-                ValueError, TypeError, SyntaxError, AttributeError
-            ):
+            # Whichever error a member raises, it has rejected the input.
+            with contextlib.suppress(Exception):
                 unmarshalled = routine(val)
                 return unmarshalled
 
